@@ -118,20 +118,28 @@ fn main() {
             if rng.chance(1, 2) {
                 cols.dedup();
             }
-            let expected = *rng.pick(&[0usize, 1, 10, 200]);
+            // every 40th index case is a LONG history that outgrows the size the index was created for
+            // (several hundred inserts over a large key domain)
+            let long = case_no % 80 == 1;
+            let expected = if long { *rng.pick(&[0usize, 1, 100]) } else { *rng.pick(&[0usize, 1, 10, 200]) };
             let mut idx = HashIndex::new(JoinKeySpec::new("r", cols.clone()), expected);
-            let pool: Vec<Tuple> = (0..rng.range(2, 6))
-                .map(|_| Tuple::new((0..arity).map(|_| gen_value(&mut rng)).collect()))
-                .collect();
-            let nops = rng.range(1, 16);
+            let pool: Vec<Tuple> = if long {
+                (0..400).map(|i| Tuple::new((0..arity).map(|c| Value::Int64(if c == 0 { i } else { rng.range(0, 3) })).collect())).collect()
+            } else {
+                (0..rng.range(2, 6)).map(|_| Tuple::new((0..arity).map(|_| gen_value(&mut rng)).collect())).collect()
+            };
+            let nops = if long { rng.range(260, 420) } else { rng.range(1, 16) };
+            if long {
+                sink.tally("kind:index-long-history");
+            }
             let mut ops = vec![];
             let mut desc = vec![];
             let mut keys: Vec<Tuple> = vec![];
             let mut nontriv = false;
             let hook_filter = BloomFilter::with_params(64, 1);
-            for _ in 0..nops {
-                let t = rng.pick(&pool).clone();
-                match rng.below(10) {
+            for opno in 0..nops {
+                let t = if long { pool[(opno as usize) % pool.len()].clone() } else { rng.pick(&pool).clone() };
+                match if long { [2u64, 2, 2, 2, 2, 2, 2, 4, 7, 7][rng.below(10) as usize] } else { rng.below(10) } {
                     0 => {
                         let n = rng.below(4) as usize;
                         let ts: Vec<Tuple> = (0..n).map(|_| rng.pick(&pool).clone()).collect();
